@@ -305,6 +305,24 @@ def run(ctx):
         scale = max(1e-9, np.abs(G).max())
         if np.abs(gotG - G).max() > 1e-5 * scale:
             viol("gyration|value", "compute_gyration_tensor differs from (1/N) sum (x-c)(x-c)^T by %.3g" % np.abs(gotG - G).max(), rpm)
+        # the same system far from the origin (an unwrapped, diffusing molecule; a solute in a large box): the closed forms on the stored
+        # coordinates, in double precision — the descriptors must not lose the molecule's size against its position
+        far = np.array([rng.choice([-1.0, 1.0]) * rng.choice([8.0, 40.0, 250.0]) for _ in range(3)])
+        tf_ = md.Trajectory((X64 + far).astype(np.float32), top)
+        Xf = tf_.xyz.astype(np.float64)
+        cf = Xf.mean(1)
+        Gf = np.array([(Xf[f] - cf[f]).T @ (Xf[f] - cf[f]) / n for f in range(nfr)])
+        scf = max(1e-9, np.abs(Gf).max())
+        ctx.case(None, (k, "far-from-origin")); ctx.count("systems moved far from the origin")
+        if np.abs(md.compute_gyration_tensor(tf_) - Gf).max() > 1e-5 * scf:
+            viol("gyration|far-from-origin", "compute_gyration_tensor of a system at %s nm differs from (1/N) sum (x-c)(x-c)^T of the stored coordinates by %.3g (entries up to %.3g)" % (
+                far.tolist(), np.abs(md.compute_gyration_tensor(tf_) - Gf).max(), scf), dict(rpm, shift=far.tolist()))
+        rgf = np.sqrt(((Xf - cf[:, None]) ** 2).sum(-1).mean(1))
+        if np.abs(md.compute_rg(tf_) - rgf).max() > 1e-5 * max(1.0, rgf.max()):
+            viol("rg|far-from-origin", "compute_rg of a system at %s nm differs from sqrt(mean |x - centre|^2) of the stored coordinates by %.3g" % (far.tolist(), np.abs(md.compute_rg(tf_) - rgf).max()), dict(rpm, shift=far.tolist()))
+        comf = np.array([(Xf[f] * masses[:, None]).sum(0) / masses.sum() for f in range(nfr)])
+        if np.abs(md.compute_center_of_mass(tf_) - comf).max() > 1e-5:
+            viol("com|far-from-origin", "compute_center_of_mass of a system at %s nm differs from sum(m x)/sum(m) of the stored coordinates by %.3g nm" % (far.tolist(), np.abs(md.compute_center_of_mass(tf_) - comf).max()), dict(rpm, shift=far.tolist()))
         pm = md.principal_moments(t)
         ev = np.linalg.eigvalsh(G)
         if np.abs(pm - ev).max() > 1e-5 * scale or np.any(np.diff(pm, axis=1) < -1e-12):
